@@ -16,11 +16,17 @@ uint64_t in_w[8]; H3Index in_a, in_b; int in_d, in_mode, in_res; double in_f[8];
     __CPROVER_assert(!((e) == E_MEMORY_ALLOC) || vp_failed > 0, "E_MEMORY_ALLOC only when an allocation failed"); \
 } while (0)
 #if defined(POLYEXP) || defined(POLYMAX) || defined(POLYLEGACY)
-// S-GEO: arbitrary geometry of the right shape
-H3Error H3_EXPORT(cellToLatLng)(H3Index h, LatLng *g) { if (vp_next_bool()) return E_CELL_INVALID; g->lat = vp_next_double(); g->lng = vp_next_double(); return E_SUCCESS; }
-H3Error H3_EXPORT(cellToBoundary)(H3Index h, CellBoundary *cb) { if (vp_next_bool()) return E_CELL_INVALID; int n = vp_next_int(); __CPROVER_assume(n >= 0 && n <= 10); cb->numVerts = n; for (int i = 0; i < 10; i++) { cb->verts[i].lat = vp_next_double(); cb->verts[i].lng = vp_next_double(); } return E_SUCCESS; }
+// S-GEO: arbitrary geometry of the right shape. Stated bound: at most GEO_BUDGET geometry evaluations per API call
+// (paths scanning more cells are cut by the assumption; each scan iteration of the polygon iterator evaluates at least one).
+#ifndef GEO_BUDGET
+#define GEO_BUDGET 3
+#endif
+static int s_geo_calls;
+#define GEO_TICK() { s_geo_calls++; __CPROVER_assume(s_geo_calls <= GEO_BUDGET); }
+H3Error H3_EXPORT(cellToLatLng)(H3Index h, LatLng *g) { GEO_TICK(); if (vp_next_bool()) return E_CELL_INVALID; g->lat = vp_next_double(); g->lng = vp_next_double(); return E_SUCCESS; }
+H3Error H3_EXPORT(cellToBoundary)(H3Index h, CellBoundary *cb) { GEO_TICK(); if (vp_next_bool()) return E_CELL_INVALID; int n = vp_next_int(); __CPROVER_assume(n >= 0 && n <= 10); cb->numVerts = n; /* vertices stay as the caller left them: an uninitialised CellBoundary is arbitrary */ return E_SUCCESS; }
 H3Error H3_EXPORT(latLngToCell)(const LatLng *g, int res, H3Index *out) { if (vp_next_bool()) return E_FAILED; *out = vp_next(); __CPROVER_assume(*out != 0); return E_SUCCESS; }
-H3Error cellToBBox(H3Index cell, BBox *out, bool coverChildren) { if (vp_next_bool()) return E_CELL_INVALID; out->north = vp_next_double(); out->south = vp_next_double(); out->east = vp_next_double(); out->west = vp_next_double(); return E_SUCCESS; }
+H3Error cellToBBox(H3Index cell, BBox *out, bool coverChildren) { GEO_TICK(); if (vp_next_bool()) return E_CELL_INVALID; out->north = vp_next_double(); out->south = vp_next_double(); out->east = vp_next_double(); out->west = vp_next_double(); return E_SUCCESS; }
 bool pointInsidePolygon(const GeoPolygon *p, const BBox *b, const LatLng *c) { return vp_next_bool(); }
 bool cellBoundaryInsidePolygon(const GeoPolygon *p, const BBox *b, const CellBoundary *cb, const BBox *bb) { return vp_next_bool(); }
 bool cellBoundaryCrossesPolygon(const GeoPolygon *p, const BBox *b, const CellBoundary *cb, const BBox *bb) { return vp_next_bool(); }
@@ -70,7 +76,7 @@ void harness(void) {
     LatLng v[3], hv[3];
     for (int i = 0; i < 3; i++) { v[i].lat = vp_double_i("in_f", 2 * i); v[i].lng = vp_double_i("in_f", 2 * i + 1); hv[i].lat = vp_next_double(); hv[i].lng = vp_next_double(); }
     GeoLoop hole = {.numVerts = 3, .verts = hv};
-    int nh = in_d = vp_int("in_d"); __CPROVER_assume(nh >= 0 && nh <= 1);
+    int nh = in_d = NH;   // number of holes is a job parameter: a symbolic allocation size forces CBMC into its unbounded-array encoding
     GeoPolygon poly = {.geoloop = {.numVerts = 3, .verts = v}, .numHoles = nh, .holes = &hole};
     int res = in_res = vp_int("in_res"); uint32_t flags = (uint32_t)(in_mode = vp_int("in_mode"));
     __CPROVER_assume(res <= 2);   // stated bound (keeps the digit loops short); negative values exercise E_RES_DOMAIN
